@@ -1,6 +1,11 @@
 """C05 -- task exceptions are captured and rethrown exactly once.   Tie: lockstep L under harness/vsched.h (+ T for the decisions that route bodies)."""
 import dv, taskset_common as T
 
+SIDE_OBSERVATION = ('outside the property (concurrent wait() calls on ONE set are excluded by the OneWaiter hypothesis; the documentation only forbids wait concurrent with schedule): two threads in '
+                    'ConcurrentTaskSet::wait() on the same set race in testAndResetException -- both load guard == Set, the second moves an empty exception_ptr and calls std::rethrow_exception(nullptr): SIGSEGV. '
+                    'Deterministic lockstep replay: echo "L 60 ; P 1 32 0 3 ; S 1 0 4 -1 0 ; T 0 0 : s 0 1 0 [ t ] k w 0 ; T 0 0 : w 0 ; X 0 0 0 0 0 0 0 0 0 0 0 0 1 1 1 0 0 1 1 1 1 1 1" | build/harness/h_taskset-*  ->  CRASH status 11')
+
+
 META = {
     'category': 'proof',
     'technique': 'Coq invariants over all interleavings of the step model of trySetCurrentException / testAndResetException (CAS, slot write, guard stores, move, reset as separate steps) '
@@ -13,7 +18,8 @@ META = {
     'note': T.NOTE,
 }
 ASSUMPTIONS = T.ASSUME + ['at most one thread at a time between the guard load and the guard reset of testAndResetException of one set (no concurrent wait()/tryWait() on the same set); needed by first_exception_wins / next_wait_rethrows only',
-                          'compare_exchange_strong does not fail spuriously']
+                          'compare_exchange_strong does not fail spuriously',
+                          'side observation (not a violation of C05 as quantified): ' + SIDE_OBSERVATION]
 
 
 def run(ctx):
@@ -23,6 +29,7 @@ def run(ctx):
         ctx.violation('an (exception, set) pair was rethrown twice, or a wait whose guard load followed a completed capture did not rethrow: %s -> %s' % (T.case_line(c)[:300], o[:400]),
                       {'case': T.case_line(c), 'output': o, 'cmd': 'echo "<case>" | build/harness/h_taskset-*'})
     res = T.lockstep_phase(ctx, exe, 'judge_C05', ['exc', 'exc', 'exc', 'mixed'], 110 if ctx.quick else 3000, on_verdict=on_verdict)
+    ctx.cov['side_observations'] = [SIDE_OBSERVATION]
     ctx.cov['rethrows_observed'] = sum(1 for _, p, _, _ in res for evs in p['results'].values() for e in evs if e[0] == T.TAGS['rt'])
     ctx.cov['captures_observed'] = sum(1 for _, p, _, _ in res for (t, code) in p['steps'] if code // 64 == 15)
     ctx.cov['lost_cas_observed'] = sum(1 for _, p, _, _ in res for (t, code) in p['steps'] if code // 64 == 14) - ctx.cov['captures_observed']
